@@ -64,3 +64,33 @@ def tainted_calls(ctx, fn, tainted, pred, depth=3, _seen=None):
             q = lib.fn(callee_of(c) or "")
             if q is not None and thir.body_of(q):
                 yield from tainted_calls(ctx, q, set(hit), pred, depth - 1, seen)
+
+
+def linear_events(ctx, fn, classify, derive, depth=3, _tainted=frozenset(), _stack=()):
+    """Source-order sequence of labelled events of `fn` with local helper functions expanded in place.
+
+    classify(node, fa, tainted) -> label or None, for any node (calls, loops, ...);
+    derive(arg_expr, fa, tainted) -> bool: does this call argument carry the fact tracked by `tainted`
+    (e.g. `derives from token.read(..)`)?  Parameters of a helper that receive such an argument are tainted in it."""
+    lib = ctx.lib
+    fa = ctx.an.fa(fn["path"])
+    out = []
+    if fa is None or fn["path"] in _stack:
+        return out
+
+    def visit(n):
+        lab = classify(n, fa, _tainted)
+        if lab is not None:
+            out.append((lab, fn, n))
+        if n.get("k") == "Call" and depth > 0 and lab is None:
+            q = lib.fn(callee_of(n) or "")
+            if q is not None and thir.body_of(q) and q.get("file") == fn.get("file"):
+                t2 = frozenset(i for i, a in enumerate(n["args"]) if a.get("k") != "Closure" and derive(a, fa, _tainted))
+                for ch in thir.subexprs(n):
+                    visit(ch)
+                out.extend(linear_events(ctx, q, classify, derive, depth - 1, t2, _stack + (fn["path"],)))
+                return
+        for ch in thir.subexprs(n):
+            visit(ch)
+    visit(thir.body_of(fn))
+    return out
